@@ -73,3 +73,84 @@ theorem mvY_viewy (v : ViewPort) (y : Int) :
 
 end ViewPort
 end Tcell.Views
+
+namespace Tcell.Views
+open LayoutNum
+
+/-! ### running sums and `placeAlong` -/
+
+@[simp] theorem sumInt_nil : sumInt [] = 0 := rfl
+@[simp] theorem sumInt_cons (a : Int) (l : List Int) : sumInt (a :: l) = a + sumInt l := by simp [sumInt]
+
+theorem sumInt_nonneg : ∀ (l : List Int), (∀ e ∈ l, 0 ≤ e) → 0 ≤ sumInt l
+  | [], _ => by simp
+  | a :: l, h => by
+    have := sumInt_nonneg l (fun e he => h e (List.mem_cons_of_mem _ he))
+    have := h a (List.mem_cons_self)
+    simp; omega
+
+/-- prefix sums of non-negative extents: the end of slot i is at or before the start of any later slot -/
+theorem sum_take_step : ∀ (es : List Int) (i j : Nat) (e : Int), (∀ e ∈ es, 0 ≤ e) → i < j → es[i]? = some e →
+    sumInt (es.take i) + e ≤ sumInt (es.take j)
+  | [], i, j, e, _, _, h => by simp at h
+  | a :: l, 0, j + 1, e, hn, _, h => by
+    simp at h; subst h
+    have := sumInt_nonneg (l.take j) (fun e he => hn e (List.mem_cons_of_mem _ (List.mem_of_mem_take he)))
+    simp; omega
+  | a :: l, i + 1, j + 1, e, hn, hij, h => by
+    have := sum_take_step l i j e (fun e he => hn e (List.mem_cons_of_mem _ he)) (by omega) (by simpa using h)
+    simp; omega
+  | a :: l, i + 1, 0, e, _, hij, _ => by omega
+
+theorem sum_take_nonneg (es : List Int) (i : Nat) (hn : ∀ e ∈ es, 0 ≤ e) : 0 ≤ sumInt (es.take i) :=
+  sumInt_nonneg _ (fun e he => hn e (List.mem_of_mem_take he))
+
+theorem sum_take_le_total (es : List Int) (i : Nat) (e : Int) (hn : ∀ e ∈ es, 0 ≤ e) (h : es[i]? = some e) :
+    sumInt (es.take i) + e ≤ sumInt es := by
+  have hi : i < es.length := by
+    rcases Nat.lt_or_ge i es.length with h' | h'
+    · exact h'
+    · simp [List.getElem?_eq_none h'] at h
+  have := sum_take_step es i es.length e hn hi h
+  simpa using this
+
+/-- the place of slot i: position = start + sum of the extents before it, extent as given -/
+def slot (horizontal : Bool) (vw vh s e : Int) : Place :=
+  if horizontal then { x := s, y := 0, w := e, h := vh } else { x := 0, y := s, w := vw, h := e }
+
+theorem placeAlong_get (hz : Bool) (vw vh : Int) : ∀ (es : List Int) (pos : Int) (i : Nat) (e : Int),
+    es[i]? = some e → (placeAlong hz vw vh pos es)[i]? = some (slot hz vw vh (pos + sumInt (es.take i)) e)
+  | [], _, i, e, h => by simp at h
+  | a :: l, pos, 0, e, h => by
+    simp at h; subst h; simp [placeAlong, slot]
+  | a :: l, pos, i + 1, e, h => by
+    have := placeAlong_get hz vw vh l (pos + a) i e (by simpa using h)
+    simp [placeAlong, this]; congr 1; omega
+
+theorem placeAlong_length (hz : Bool) (vw vh : Int) : ∀ (es : List Int) (pos : Int),
+    (placeAlong hz vw vh pos es).length = es.length
+  | [], _ => rfl
+  | a :: l, pos => by simp [placeAlong, placeAlong_length hz vw vh l]
+
+/-! ### axis accessors of a child rectangle -/
+
+def aStart (hz : Bool) (v : ViewPort) : Int := if hz then v.physx else v.physy
+def aLen (hz : Bool) (v : ViewPort) : Int := if hz then v.width else v.height
+def cStart (hz : Bool) (v : ViewPort) : Int := if hz then v.physy else v.physx
+def cLen (hz : Bool) (v : ViewPort) : Int := if hz then v.height else v.width
+
+/-- what ViewPort.Resize makes of slot (s, e) inside a view whose extent along the axis is `avail` and across
+it `cross`: the extent is clipped to the view, the origin is taken when it lies inside the view -/
+theorem applyPlace_slot (hz : Bool) (vw vh s e : Int) (old : ViewPort) (hv : old.hasView = true)
+    (hvw : 0 ≤ vw) (hvh : 0 ≤ vh) (hs : 0 ≤ s) (he : 0 ≤ e) :
+    let r := applyPlace vw vh old (slot hz vw vh s e)
+    let avail := if hz then vw else vh
+    let cross := if hz then vh else vw
+    aLen hz r = (if e > avail - s then avail - s else e) ∧ (s < avail → aStart hz r = s) ∧
+    cLen hz r = cross ∧ (0 < cross → cStart hz r = 0) := by
+  cases hz <;>
+    simp only [applyPlace, slot, ViewPort.resize, hv, aLen, aStart, cLen, cStart, Bool.not_true, Bool.false_eq_true,
+      if_false, if_true] <;>
+    refine ⟨?_, ?_, ?_, ?_⟩ <;> (repeat' split) <;> omega
+
+end Tcell.Views
